@@ -122,12 +122,35 @@ fn emit_flow(y: &serde_yaml::Value, out: &mut String) {
     }
 }
 
+/// A path segment as the OS sees it: U+F8FF followed by two hex digits stands for that raw byte
+/// (file names that are not valid UTF-8).
+fn os_seg(s: &str) -> std::ffi::OsString {
+    use std::os::unix::ffi::OsStringExt;
+    let mut out: Vec<u8> = vec![];
+    let cs: Vec<char> = s.chars().collect();
+    let mut i = 0;
+    while i < cs.len() {
+        if cs[i] == '\u{F8FF}' && i + 2 < cs.len() {
+            let h: String = cs[i + 1..i + 3].iter().collect();
+            if let Ok(b) = u8::from_str_radix(&h, 16) {
+                out.push(b);
+                i += 3;
+                continue;
+            }
+        }
+        let mut buf = [0u8; 4];
+        out.extend_from_slice(cs[i].encode_utf8(&mut buf).as_bytes());
+        i += 1;
+    }
+    std::ffi::OsString::from_vec(out)
+}
+
 pub fn write_tree(root: &Path, files: &[(Vec<String>, FileDoc)]) -> Result<(), String> {
     std::fs::create_dir_all(root).map_err(|e| e.to_string())?;
     for (path, doc) in files {
         let mut p = root.to_path_buf();
         for s in path {
-            p.push(s);
+            p.push(os_seg(s));
         }
         if let Some(parent) = p.parent() {
             std::fs::create_dir_all(parent).map_err(|e| e.to_string())?;
